@@ -1214,6 +1214,9 @@ impl Engine for GroupEngine {
     fn name(&self) -> &'static str {
         "group"
     }
+    fn describe(&self, bytes: &[u8]) -> String {
+        gen_group_case(bytes, &self.gp).show()
+    }
     fn eval(&self, bytes: &[u8], trace: bool) -> Eval {
         let case = gen_group_case(bytes, &self.gp);
         let mut out = run_group_case(&case, cfg!(feature = "cfg-std"), trace);
